@@ -11,15 +11,23 @@ namespace Mqtt.Proofs.Lifecycle
 open Mqtt.Model.Lifecycle
 
 /-- the configuration of the code as it is: repaired ring, `stop` in the order of service.go, the
-receiver closes the socket when its read fails (b77088f), a ring that holds a read block plus the
-longest packet header -/
+receiver closes the socket when its read fails (b77088f), `ReadFrom` waits only while the incoming
+ring is completely full (8f682d1), a ring that holds the longest packet header (`room`: all that is
+left of "a read block plus a header" — used in `quiescent_cases`: a processor waiting for a header
+cannot face a full ring) -/
 structure WF (c : Cfg) : Prop where
   d2 : c.d2 = false
   prog : c.stopProg = stopProgram
   rc : c.recvCloses = true
+  bw : c.blockWait = false
   rblock : 0 < c.rblock
   wblock : 0 < c.wblock
-  room : 5 + c.rblock ≤ c.cap
+  room : 5 ≤ c.cap
+
+theorem spaceNeed_wf (c : Cfg) (hw : WF c) : c.spaceNeed = 1 := by simp [Cfg.spaceNeed, hw.bw]
+
+theorem readMax_wf (c : Cfg) (hw : WF c) (sh : Sh) : readMax c sh = min c.rblock (c.cap - sh.inR.buf) := by
+  simp [readMax, hw.bw]
 
 /-! ## The ring contract (what Core D proves for the real ring, `Properties/C15.lean`)
 
@@ -188,7 +196,7 @@ theorem rstep_rank (c : Cfg) (hw : WF c) (sh sh' : Sh) (k : Nat) (pc pc' : RPc)
   cases pc with
   | space =>
     simp only [rstep] at h
-    cases hs : sh.inR.waitSpace c c.rblock with
+    cases hs : sh.inR.waitSpace c c.spaceNeed with
     | none => simp [hs] at h
     | some p =>
       obtain ⟨ret, r⟩ := p
